@@ -203,10 +203,30 @@ def run_prog(case, pid, at_limit_fn=None, on_step=None):
     try:
         dc = world.dc
         path = world.path('c')
+        sibling = None
+        if cfg.get('dirname'):
+            # a directory name with characters that mean something in URIs, patterns or shells, next to a directory whose name is
+            # the same up to such a character: two directories, two caches
+            path = world.path(cfg['dirname'][0])
+            sibling = open_cache(dc, world.path(cfg['dirname'][1]), {}, cfg.get('disk'))
+            sibling.set('sibling', cfg['dirname'][1])
+            probes['odd_directory_name'] = 1
         cache = open_cache(dc, path, settings, cfg.get('disk'))
         skews = cfg.get('skews') or [0.0]
         handles = [cache] + [open_cache(dc, path, {}, cfg.get('disk')) for _ in skews[1:]]
         raw = RawView(path)
+        try:
+            raw.rowids()
+        except Exception as exc:  # noqa
+            # the cache is open and <directory>/cache.db holds no cache: its database lives somewhere else
+            violations.append({'rule': '%s/database-not-in-directory' % pid, 'sig': type(exc).__name__,
+                               'detail': 'after Cache(%r): %s/cache.db: %s' % (path, path, str(exc)[:100])})
+            raw.close()
+            for h in handles:
+                h.close()
+            if sibling is not None:
+                sibling.close()
+            return violations, stats
         model = ModelCache(policy=settings.get('eviction_policy', 'least-recently-stored'),
                            cull_limit=settings.get('cull_limit', 10), statistics=settings.get('statistics', 0),
                            size_limit=settings.get('size_limit', 2 ** 30))
@@ -301,6 +321,12 @@ def run_prog(case, pid, at_limit_fn=None, on_step=None):
         sim.harness_proc.pid = 1
         if not violations:
             final_compare(handles[0], model, raw, sim.now, violations, pid)
+        if sibling is not None:
+            left = sorted((fp(k), fp(sibling[k])) for k in sibling)
+            if left != [(fp('sibling'), fp(cfg['dirname'][1]))] and not violations:
+                violations.append({'rule': '%s/neighbouring-directory-affected' % pid, 'sig': 'directory-name',
+                                   'detail': 'the cache in %r holds %s after work on the cache in %r' % (cfg['dirname'][1], left[:5], cfg['dirname'][0])})
+            sibling.close()
         raw.close()
         for h in handles:
             h.close()
